@@ -154,6 +154,45 @@ fixed("F17d", "C17", "9cde3dd",
       "IndexedGrammar.intersection raised AttributeError (pyformlang.regular_expression not imported) when the caller had not imported that submodule",
       {"dup": None, "perm": [0], "reg": {"kind": "fa", "fa": fa("dfa", [[0, "a", 1]], [0], [1])}, "with_intersection": True,
        "rules": [["end", "S", "a"]]})
+# ------------------------------------------------------------------ C18
+fixed("F18a", "C18", "e6837ef",
+      "FCFG membership on grammars with epsilon productions: RuntimeError (dictionary changed size during iteration) for S -> A a | a, A -> epsilon",
+      {"kind": "fcfg", "alternatives": False,
+       "f": {"start": "S", "sig": {"A": [], "S": []},
+             "prods": [["A", {}, []], ["S", {}, [["V", "A", {}], ["T", "a"]]], ["S", {}, [["T", "a"]]]]}})
+fixed("F18b", "C18", "491b607",
+      "feature productions differing only by their features were merged in the production set: S -> A[n=u], S -> A[n=v] lost one alternative",
+      {"kind": "fcfg", "alternatives": False,
+       "f": {"start": "S", "sig": {"A": ["n"], "S": []},
+             "prods": [["S", {}, [["V", "A", {"n": "u"}]]], ["S", {}, [["V", "A", {"n": "v"}]]],
+                       ["A", {"n": "u"}, [["T", "a"]]], ["A", {"n": "v"}, [["T", "b"]]]]}})
+fixed("F18c", "C18", "289765c",
+      "FCFG.from_text accumulated body features across | alternatives: S[n=u] -> a a | a B[n=u], B[n=v] -> b accepted a b",
+      {"kind": "fcfg", "alternatives": True,
+       "f": {"start": "S", "sig": {"A": [], "B": ["n"], "S": ["n"]},
+             "prods": [["S", {"n": "u"}, [["T", "a"], ["T", "a"]]], ["A", {}, [["T", "a"], ["T", "a"]]],
+                       ["S", {"n": "u"}, [["T", "a"], ["V", "B", {"n": "u"}]]], ["B", {"n": "v"}, [["T", "b"]]]]}})
+# ------------------------------------------------------------------ C20
+fixed("F20a", "C20", "2e12088",
+      "PDA.from_networkx skipped nodes named starting_*: the real state starting_q lost its transitions",
+      {"kind": "pda", "finals": ["starting_q"], "starts": [], "states": ["starting_q", "q"],
+       "trans": [["starting_q", "a", "a", "starting_q", []]], "z0": None})
+fixed("F20b", "C20", "61bd78e",
+      "PDA.add_final_state did not add the state to states: a final state without transition vanished from the export",
+      {"kind": "pda", "how": "mut", "finals": ["f"], "starts": ["q"], "states": [], "trans": [["q", "a", "Z", "q", []]], "z0": "Z"})
+fixed("F20c", "C20", "21dca5a",
+      "FiniteAutomaton.from_networkx dropped isolated states",
+      {"kind": "fa", "cls": "enfa", "finals": [0], "starts": [], "states": [0, 1], "trans": []})
+fixed("F20d", "C20", "2c5e1e1",
+      "CFG.from_text read \"TER:B\" as the variable B",
+      {"kind": "cfg", "g": {"how": "ctor", "prods": [["S", [["T", "B"]]]], "start": "S", "tpool": "upper", "vpool": "std"}})
+fixed("F20e", "C20", "e93b198",
+      "PDA export merged a state named INITIAL_STACK_HIDDEN with the hidden start-stack node (JSONDecodeError on import)",
+      {"kind": "pda", "finals": ["INITIAL_STACK_HIDDEN"], "starts": ["INITIAL_STACK_HIDDEN"],
+       "states": ["INITIAL_STACK_HIDDEN", "q"], "trans": [], "z0": None})
+fixed("F20f", "C20", "721a4b8",
+      "PDA.from_networkx dropped isolated states",
+      {"kind": "pda", "finals": [0], "starts": [0], "states": [0, 1], "trans": [], "z0": None})
 # ------------------------------------------------------------------ C06
 fixed("F06a", "C06", "2262869",
       "to_regex raised ValueError on automata with two start states",
